@@ -20,11 +20,11 @@ import (
 // how many lookups return while the connection is stalled (the capacity of the channel), whether everything completes
 // after it resumes, and what reached the wire in which order.
 //
-//   burst  : one request in flight, Send stalled, n lookups miss, resume
-//   ack    : the same with a response acknowledged while stalled (its ACK waits in the channel)
-//   flood  : the same with a stream failure + reconnect (new stream published, not yet adopted) before the lookups
-//   outage : the stream fails and cannot be re-created; n lookups miss meanwhile
-//   stop   : as burst, but instead of resuming the control plane rejects the client (authentication): close()
+//	burst  : one request in flight, Send stalled, n lookups miss, resume
+//	ack    : the same with a response acknowledged while stalled (its ACK waits in the channel)
+//	flood  : the same with a stream failure + reconnect (new stream published, not yet adopted) before the lookups
+//	outage : the stream fails and cannot be re-created; n lookups miss meanwhile
+//	stop   : as burst, but instead of resuming the control plane rejects the client (authentication): close()
 func flowCase(c *ctx, kind string, n int) { flowCaseHold(c, kind, n, 0) }
 
 // flowCaseHold: as flowCase; the transport stays stalled for `hold` after the lookups got stuck (or finished).
